@@ -86,14 +86,36 @@ Definition endpoint (specs : list epspec) (binding : option string) : list strin
   match spec with [] => unspec | _ => spec end.
 
 (* ---- the message as parsed ---- *)
+(* how the time zone of @IssueInstant was written (xs:dateTime: 'Z', nothing, or a numeric offset) *)
+Inductive zone :=
+  | ZUtc                    (* 'Z' *)
+  | ZNone                   (* no designator (SAML core 1.3.3: time values are in UTC) *)
+  | ZOff (minutes : Z)      (* '+hh:mm' / '-hh:mm' with mm <= 59, as signed minutes east of UTC (any hh) *)
+  | ZBad.                   (* anything else after the seconds / fraction, or no date-time at all *)
+
+Definition zone_eqb (a b : zone) : bool :=
+  match a, b with
+  | ZUtc, ZUtc | ZNone, ZNone | ZBad, ZBad => true
+  | ZOff m, ZOff n => Z.eqb m n
+  | _, _ => false
+  end.
+
+(* time_util.str_to_time reads a date-time through strptime("%Y-%m-%dT%H:%M:%SZ") or, failing that, through the pattern
+   TIME_FORMAT_WITH_FRAGMENT = date-time, optional fraction, optional 'Z', end of text - and takes the fields for UTC.
+   Anything else after the seconds (a numeric offset, legal or not) matches neither: valid_date_time raises NotValid. *)
+Definition zone_read (z : zone) : bool := match z with ZUtc | ZNone => true | _ => false end.
+
 Record body := {
   b_kind : kind;                 (* the element that was actually sent *)
   version : string;              (* @Version ("" = attribute absent or empty) *)
   destination : option string;   (* @Destination *)
-  issued : Z;                    (* @IssueInstant, seconds (fraction dropped by str_to_time) *)
+  issued : Z;                    (* @IssueInstant: the date and time fields AS WRITTEN, read as UTC, in seconds
+                                    (what str_to_time makes of them; the fraction is dropped) *)
+  izone : zone;                  (* ... and the zone designator written after them *)
   issuer : option string;        (* Issuer text; None = no Issuer element / no text *)
   xsd_ok : bool;                 (* validate_doc_with_schema(str(item)) passes *)
-  inst_ok : bool;                (* valid_instance passes for everything except @Version presence *)
+  inst_ok : bool;                (* valid_instance passes for everything except @Version presence and the zone of
+                                    @IssueInstant *)
   rest : nat                     (* all remaining content (what a signature also covers) *)
 }.
 
@@ -309,7 +331,7 @@ Section Model.
     | Some d => is_empty d || match addrs with [] => true | _ => mem d addrs end
     end.
 
-  Definition valid_instance (b : body) : bool := negb (is_empty (version b)) && inst_ok b.
+  Definition valid_instance (b : body) : bool := negb (is_empty (version b)) && inst_ok b && zone_read (izone b).
 
   Definition parse_request (x : input) : verdict :=
     let c := cfg x in
